@@ -78,6 +78,7 @@ def configs(draw, reps):
         "popsize": draw(st.integers(2, 10)),
         "minimize": draw(st.booleans()),
         "init": draw(st.sampled_from(["standard", "full"])),
+        "gp_step": draw(st.sampled_from(["default", "crossover-heavy"])),
         "envs": [
             {"hashseed": draw(st.sampled_from([0, 1, 4242, "random"])), "dummies": draw(st.sampled_from([0, 1, 7, 50, 333])), "imports": draw(st.permutations(MODULES))[: draw(st.integers(0, len(MODULES)))]}
             for _ in range(3)
